@@ -334,6 +334,36 @@ def equivalent(m1, m2, feeds_list, base_outs=None, nondet=()):
             if st2 == "not_implemented":
                 return "inconclusive:not_implemented", str(o2)[:300]
             return "run", f"feed {k}: {str(o2)[:400]}"
+        if nondet:
+            # outputs that depend on a genuinely nondeterministic op: dtype and shape only
+            idx = [i for i, o in enumerate(m1.graph.output) if o.name in nondet]
+            for i in idx:
+                a, b = o1[i], o2[i]
+                if not isinstance(a, list) and (np.asarray(a).dtype != np.asarray(b).dtype or np.asarray(a).shape != np.asarray(b).shape):
+                    return "shape", f"feed {k}: nondeterministic out[{i}]: {np.asarray(a).dtype}{np.asarray(a).shape} vs {np.asarray(b).dtype}{np.asarray(b).shape}"
+            if k == 0 and idx:
+                # the original draws fresh numbers on every run; so must the result (else a random op was folded)
+                # fresh sessions on both sides: ORT seeds its generator per session, so two runs of ONE session may repeat
+                st1b, o1b = runner.ort_run(m1, feeds)
+                st2b, o2b = runner.ort_run(m2, feeds)
+                if st1b == "ok" and st2b == "ok":
+                    for i in idx:
+                        if isinstance(o1[i], list) or np.asarray(o1[i]).size < 16:
+                            continue
+                        # only when the original visibly re-draws (>= 8 positions differ) and the result never does (3 fresh runs)
+                        if int((np.asarray(o1[i]) != np.asarray(o1b[i])).sum()) < 8:
+                            continue
+                        same = np.array_equal(np.asarray(o2[i]), np.asarray(o2b[i]))
+                        for _ in range(2):
+                            if not same:
+                                break
+                            stx, ox = runner.ort_run(m2, feeds)
+                            same = stx == "ok" and np.array_equal(np.asarray(o2[i]), np.asarray(ox[i]))
+                        if same:
+                            return "nondeterminism_lost", f"feed {k}: out[{i}] differs between two runs of the original but is identical across four runs of the result (a random op was folded into a constant)"
+            keep = [i for i in range(len(o1)) if i not in idx]
+            o1 = [o1[i] for i in keep]
+            o2 = [o2[i] for i in keep]
         d = compare.compare_outputs(o1, o2, scale=scale)
         if d:
             kind = "value"
@@ -349,6 +379,9 @@ def equivalent(m1, m2, feeds_list, base_outs=None, nondet=()):
             #     structure, so a value-only difference in a model that computes in f16 is a runtime artefact.
             r1, ro1 = runner.ref_run(m1, feeds)
             r2, ro2 = runner.ref_run(m2, feeds)
+            if nondet and r1 == "ok" and r2 == "ok" and len(ro1) == len(ro2) == len(m1.graph.output):
+                kp = [i for i, o in enumerate(m1.graph.output) if o.name not in nondet]
+                ro1, ro2 = [ro1[i] for i in kp], [ro2[i] for i in kp]
             if r1 == "ok" and r2 == "ok" and compare.compare_outputs(ro1, ro2, scale=scale) is None:
                 if compare.compare_outputs(o1, ro1, scale=scale * 4, check_dtype=False) is not None:
                     return "inconclusive:disputed", f"feed {k}: {d} (onnx.reference finds both models equal and disagrees with ORT on the original)"
